@@ -81,7 +81,12 @@ func TestDebugC12Cold(t *testing.T) {
 		seed := RunSeed(99, "C12", i)
 		r := NewRng(seed)
 		p := prop.Gen(r, "quick", i)
-		genC12ColdCache(r, p)
+		if os.Getenv("VERIF_DEBUG_COLD_VARIANT") == "pos" {
+			p.Holds = nil
+			genC12ColdPos(r, p)
+		} else {
+			genC12ColdCache(r, p)
+		}
 		p.Schedule = nil
 		for i := 0; i < 2500; i++ {
 			p.Schedule = append(p.Schedule, r.Intn(1000))
@@ -102,6 +107,42 @@ func TestDebugC12Cold(t *testing.T) {
 			}
 		}
 		fmt.Println(i, c, res.Probes)
+	}
+	fmt.Println(classes)
+}
+
+// TestDebugC11Lag runs N programs of the lagging-follower variant (VERIF_DEBUG_LAG=N).
+func TestDebugC11Lag(t *testing.T) {
+	var n int
+	fmt.Sscan(os.Getenv("VERIF_DEBUG_LAG"), &n)
+	if n == 0 {
+		t.Skip()
+	}
+	prop := Props["C11"]
+	classes := map[string]int{}
+	for i := 0; i < n; i++ {
+		seed := RunSeed(99, "C11", i)
+		r := NewRng(seed)
+		p := &Program{Property: "C11", Engine: "HIST"}
+		p.Cfg = genConfig(r)
+		p.Cfg.StepGapMs = 1000
+		genC11LaggingFollower(r, p)
+		p.Seed = seed
+		res := prop.Run(t, p)
+		c := "ok"
+		if res.Violation != nil {
+			c = res.Violation.Class
+		}
+		if res.Trouble != "" {
+			c = "trouble:" + res.Trouble
+		}
+		classes[c]++
+		if os.Getenv("VERIF_DEBUG_EVENTS") != "" {
+			for _, e := range res.Events {
+				fmt.Println(e)
+			}
+		}
+		fmt.Println(i, c, res.Probes["rule:R4:sidecar"], res.Probes["follow_stops"])
 	}
 	fmt.Println(classes)
 }
